@@ -582,6 +582,7 @@ type c16Obs struct {
 	Rejections                                map[string]int64
 	ContinuationsOnTurn                       int64
 	Turns                                     int64
+	Toggles, TogglesWhileBlocking             int64
 	MaxOutstanding                            int64
 	Episodes, EpisodesJudged                  int64
 	HeldMessages                              int64
@@ -1082,6 +1083,7 @@ func c16RunCase(t *testing.T, k c16Knobs, seed int64) c16Obs {
 	led.rejections.Range(func(key, v any) bool { obs.Rejections[key.(string)] = v.(*atomic.Int64).Load(); return true })
 	obs.ContinuationsOnTurn = led.contOnTurn.Load()
 	obs.Turns = mon.turns.Load()
+	obs.Toggles, obs.TogglesWhileBlocking = core.toggles.Load(), core.togglesBlk.Load()
 	obs.MaxOutstanding = led.maxOutstand.Load()
 	obs.LimitRejected = led.limitRejected.Load()
 	led.mu.Lock()
@@ -1227,7 +1229,7 @@ func c16MailboxQuiet(pid *PID, gp *grainPID) bool {
 func TestVerif_C16(t *testing.T) {
 	r := verifrt.Start(t, "C16")
 	defer r.Finish()
-	r.Rule("case = one requester (actor, or grain) with reentrancy mode in {AllowAll, StashNonReentrant} and maxInFlight in {0,1,4} driven through 6-11 rounds: bursts of 1-8 Request/RequestName/RequestGrain(/RequestActor) issued from inside its handler to 4 actor + 2 grain responders that reply promptly / late (2-50 ms) / never / twice / panic, per-call timeouts 5-50 ms or none, per-call mode overrides, Cancel() inside the handler or from a foreign goroutine after 1-50 ms, ordinary messages interleaved; hold episodes (blocking request to a gated responder, 2-8 messages sent before the release = held by construction); 2-3 requester restarts mid-burst or shutdown mid-burst; 0-3 hot noise sites in reentrancy.go/pid.go/grain_pid.go/async_reply.go/stash.go; oracle = per-request continuation counter, goroutine identity of the continuation vs the goroutine that entered the requester's turn (runTurn hook), requester-side mirror of outstanding/blocking requests checked at every handled message and accept, order of held groups, audit of inFlightCount/blockingCount/requestStates at quiescence, race detector on plain requester state; non-trivial = >= 10 accepted requests and >= 2 kinds of outcome; distinct by knob tuple and seed")
+	r.Rule("case = one requester (actor, or grain) with default reentrancy mode in {AllowAll, StashNonReentrant, Off (actor only: requests admitted by per-call overrides)} and maxInFlight in {0,1,4} driven through 6-11 rounds: bursts of 1-8 Request/RequestName/RequestGrain(/RequestActor) issued from inside its handler to 4 actor + 2 grain responders that reply promptly / late (2-50 ms) / never / twice / panic, per-call timeouts 5-50 ms or none, per-call mode overrides, Cancel() inside the handler or from a foreign goroutine after 1-50 ms, ordinary messages interleaved; hold episodes (blocking request to a gated responder, 2-8 messages sent before the release = held by construction); 2-3 requester restarts mid-burst, shutdown mid-burst, or runtime DisableReentrancy/EnableReentrancy from the handler that just issued (possibly blocking) requests; 0-3 hot noise sites in reentrancy.go/pid.go/grain_pid.go/async_reply.go/stash.go; oracle = per-request continuation counter, goroutine identity of the continuation vs the goroutine that entered the requester's turn (runTurn hook), requester-side mirror of outstanding/blocking requests checked at every handled message and accept, order of held groups, audit of inFlightCount/blockingCount/requestStates at quiescence, race detector on plain requester state; non-trivial = >= 10 accepted requests and >= 2 kinds of outcome; distinct by knob tuple and seed")
 	c16Calibrate(t)
 	var names []string
 	for _, s := range c16ReqSites {
@@ -1265,6 +1267,8 @@ func TestVerif_C16(t *testing.T) {
 		}
 		r.Count("continuations_on_turn", obs.ContinuationsOnTurn)
 		r.Count("requester_turns", obs.Turns)
+		r.Count("runtime_policy_toggles", obs.Toggles)
+		r.Count("runtime_policy_toggles_while_blocking", obs.TogglesWhileBlocking)
 		r.Max("max_outstanding", obs.MaxOutstanding)
 		r.Count("hold_episodes", obs.Episodes)
 		r.Count("hold_episodes_judged", obs.EpisodesJudged)
